@@ -920,6 +920,9 @@ func (y *IfFeature) Expression() string {
 }
 
 func (y *IfFeature) Evaluate(enabled map[string]*Feature) (bool, error) {
+	if !wellFormedIfFeature(y.expr) {
+		return false, errors.New("syntax err in feature expression:" + y.expr)
+	}
 	e := &ifFeatureEval{
 		features: enabled,
 		expr:     y.expr,
@@ -931,6 +934,55 @@ func (y *IfFeature) Evaluate(enabled map[string]*Feature) (bool, error) {
 		return false, errors.New("syntax err in feature expression:" + y.expr)
 	}
 	return b, err
+}
+
+// wellFormedIfFeature checks an expression against the grammar of RFC 7950 7.20.2
+//
+//	expr = term ["or" expr]   term = factor ["and" term]   factor = "not" factor / "(" expr ")" / identifier
+//
+// The evaluator below computes the right value for every well formed expression but on its own
+// accepts much that is not one (unbalanced parentheses, missing operands, terms side by side).
+func wellFormedIfFeature(expr string) bool {
+	c := &ifFeatureEval{expr: expr}
+	var toks []string
+	for !c.end() {
+		if tok := c.next(); tok != "" {
+			toks = append(toks, tok)
+		}
+	}
+	pos := 0
+	var factor, expression func() bool
+	factor = func() bool {
+		if pos >= len(toks) {
+			return false
+		}
+		tok := toks[pos]
+		pos++
+		switch tok {
+		case "not":
+			return factor()
+		case "(":
+			if !expression() || pos >= len(toks) || toks[pos] != ")" {
+				return false
+			}
+			pos++
+			return true
+		case ")", "and", "or":
+			return false
+		}
+		return true
+	}
+	expression = func() bool {
+		for factor() {
+			if pos < len(toks) && (toks[pos] == "and" || toks[pos] == "or") {
+				pos++
+				continue
+			}
+			return true
+		}
+		return false
+	}
+	return expression() && pos == len(toks)
 }
 
 type ifFeatureEval struct {
